@@ -412,7 +412,19 @@ fn call_builder(a: &[u64]) -> Option<Vec<i128>> {
                 b.flush();
             }};
         }
-        if *hasr == 0 {
+        if *hasr == 2 {
+            // the same request with every option set BEFORE the page range is attached
+            let mut b0 = inv.build();
+            unsafe {
+                if *hp != 0 { b0.pcid(Pcid::new(u16::try_from(*p).unwrap()).unwrap()); }
+                if *ha != 0 { if b0.asid(*asid as u16).is_err() { asid_ok = false; } }
+            }
+            if *g != 0 { b0.include_global(); }
+            if *f != 0 { b0.final_translation_only(); }
+            let b0 = if *n != 0 { b0.include_nested_translations() } else { b0 };
+            if *szk == 0 { b0.pages(Page::range(pgs::<Size4KiB>(*s), pgs::<Size4KiB>(*e))).flush(); }
+            else { b0.pages(Page::range(pgs::<Size2MiB>(*s), pgs::<Size2MiB>(*e))).flush(); }
+        } else if *hasr == 0 {
             finish!(inv.build());
         } else if *szk == 0 {
             finish!(inv.build().pages(Page::range(pgs::<Size4KiB>(*s), pgs::<Size4KiB>(*e))));
